@@ -363,7 +363,7 @@ Ops ==
     \/ \E r \in 0..Len(ref), e \in 0..Len(ref), k \in 0..MaxNew : \E szs \in SizeSeqs(k) :
           Splice(r, e, "new", k, szs)
     \/ \E r \in 0..Len(ref), e \in 1..Len(ref) : Splice(r, e, "rot", 0, <<>>)
-    \/ \E r \in 0..Len(ref), k \in 1..MaxNew : \E szs \in SizeSeqs(k) : InsertAfter(r, k, szs)
+    \/ \E r \in 0..Len(ref), k \in 0..MaxNew : \E szs \in SizeSeqs(k) : InsertAfter(r, k, szs)    \* (k = 0: an empty batch)
     \/ \E r \in 1..Len(ref), e \in 0..Len(ref) :
           \E f \in {r - 1, (IF e = 0 THEN r + 1 ELSE e + 2), 1, Len(ref)} \cap 1..Len(ref) : Foreign(r, e, f)
     \/ \E i \in 1..Len(ref) : \E nsz \in Sizes : Update(i, nsz)
